@@ -293,14 +293,21 @@ impl<'a> ExprAST<'a> {
     }
 
     fn unary_expr(&self, op: &'a str, rhs: &ExprAST) -> String {
-        op.to_string() + " " + &rhs.expr()
+        // a prefix operator binds tighter than any infix operator or conditional
+        let mut tmp = rhs.expr();
+        if matches!(rhs, ExprAST::Binary(..) | ExprAST::Ternary(..)) {
+            tmp = "(".to_string() + &tmp + ")";
+        }
+        op.to_string() + " " + &tmp
     }
 
     fn binary_expr(&self, op: &'a str, lhs: &ExprAST, rhs: &ExprAST) -> String {
+        let (l_bp, r_bp) = InfixOpManager::new().get_precidence(op);
         let left = {
             let (is, precidence) = lhs.get_precidence();
             let mut tmp: String = lhs.expr();
-            if is && precidence < InfixOpManager::new().get_precidence(op) {
+            // without parentheses the parser would hand the shared operand to `op`
+            if is && precidence.1 < l_bp || matches!(lhs, ExprAST::Ternary(..)) {
                 tmp = "(".to_string() + &lhs.expr() + &")".to_string();
             }
             tmp
@@ -308,7 +315,7 @@ impl<'a> ExprAST<'a> {
         let right = {
             let (is, precidence) = rhs.get_precidence();
             let mut tmp = rhs.expr();
-            if is && precidence < InfixOpManager::new().get_precidence(op) {
+            if is && r_bp >= precidence.0 || matches!(rhs, ExprAST::Ternary(..)) {
                 tmp = "(".to_string() + &rhs.expr() + &")".to_string();
             }
             tmp
@@ -317,11 +324,24 @@ impl<'a> ExprAST<'a> {
     }
 
     fn postfix_expr(&self, lhs: &ExprAST, op: &str) -> String {
-        lhs.expr() + " " + op
+        // a postfix operator applies to the single term before it
+        let mut tmp = lhs.expr();
+        if matches!(
+            lhs,
+            ExprAST::Unary(..) | ExprAST::Binary(..) | ExprAST::Ternary(..) | ExprAST::Postfix(..)
+        ) {
+            tmp = "(".to_string() + &tmp + ")";
+        }
+        tmp + " " + op
     }
 
     fn ternary_expr(&self, condition: &ExprAST, lhs: &ExprAST, rhs: &ExprAST) -> String {
-        condition.expr() + " ? " + &lhs.expr() + " : " + &rhs.expr()
+        // conditionals nest to the right, so one in condition position needs parentheses
+        let mut tmp = condition.expr();
+        if matches!(condition, ExprAST::Ternary(..)) {
+            tmp = "(".to_string() + &tmp + ")";
+        }
+        tmp + " ? " + &lhs.expr() + " : " + &rhs.expr()
     }
 
     fn list_expr(&self, params: Vec<ExprAST>) -> String {
